@@ -52,6 +52,12 @@ def _row_of_own_mailbox(model, p, term):
 
 def run(ctx):
     model = ctx.model
+    from .. import roles as _rolesmod
+    shared.r_callers(ctx, "R08.callers", _rolesmod.get(model).close_op, ("close",),
+                     "a side is marked closed (and the mailbox possibly deleted) although "
+                     "it sent no close")
+    shared.r_collation(ctx, "R08.exact", ('mailboxes', 'mailbox_sides', 'messages'),
+                       'closing one mailbox / side acts on another')
     shared.r_lookup(ctx, "R08.lookup", ('mailboxes', 'mailbox_sides'))
     shared.r_startup(ctx, "R08.startup", ('mailboxes', 'mailbox_sides', 'messages'),
                      'a mailbox with an open side is deleted or altered by something other than a close or expiry')
@@ -248,3 +254,26 @@ def run(ctx):
                    "" if own else "the connection is marked as having closed by %s, not by "
                    "a close command: its (re-sent) close is answered with an error instead "
                    "of `closed`" % e["func"])
+
+    # R08.stop: one side's close never removes the other side's subscription
+    ctx.rule("R08.stop", "listeners are stopped / the listener table is cleared only on "
+             "paths that delete the mailbox")
+    nstop = 0
+    lattr = model.names.listeners[1]
+    for p in paths:
+        stops = [e for e, _ in all_events(p, ("callback",)) if not e["args"]]
+        clears = [e for e, _ in all_events(p, ("setattr",))
+                  if e["attr"] == lattr and e["obj"][0] == "obj" and e["obj"][1] == "Mailbox"
+                  and not e["func"].endswith("__init__")]
+        if not stops and not clears:
+            continue
+        nstop += 1
+        deleted = any(e["stmt"].kind == "delete" and e["stmt"].table == "mailboxes" and
+                      e["db"] == "chan" for e, _ in all_events(p, ("sql",)))
+        first = (stops or clears)[0]
+        ctx.ob("R08.stop", "%s: subscribers are stopped only with the deletion" % h, deleted,
+               first, "" if deleted else "a close that leaves the mailbox in place (another "
+               "side still has it open) stops every subscriber: the other side's connection "
+               "loses its subscription and its handle", None if deleted else
+               render_path(p.events))
+    ctx.require("R08.stop", nstop, 1, "close paths that stop listeners")
